@@ -18,5 +18,6 @@ MARKER_SCRIPTS = {
     "branch-and-loop-docstrings": _MH + "c = 1\nif c > 0:\n    " + Q3 + "taken\n    arm\n    " + Q3 + "\n    mon.write('m1')\nfor i in range(2):\n    " + Q3 + "body\n    text\n    " + Q3 + "\n    mon.write('m2')\nmon.write('m3')\n",
     "one-line-docstrings": _MH + "def f(n):\n    " + Q3 + "One line." + Q3 + "\n    mon.write('m1')\n    return n\nz = f(1)\nwhile True:\n    " + Q3 + "pass text" + Q3 + "\n    mon.write('m2')\n    sleep(13)\n",
     "two-docstrings-in-a-row": Q3 + "first\ntext\n" + Q3 + "\n" + _MH + Q3 + "second\ntext\n" + Q3 + "\nmon.write('m1')\n" + Q3 + "third\n" + Q3 + "\nmon.write('m2')\n",
+    "sleep-of-zero-is-a-statement": _MH + "mon.write('m1')\nsleep(0)\nk = 0\nwhile k < 3:\n    k = k + 1\n    sleep(0)\nwhile True:\n    mon.write('m2')\n    sleep(0)\n",
     "docstring-closing-on-last-text-line": _MH + "def g(n):\n    " + Q3 + "Beep.\n    more" + Q3 + "\n    mon.write('m1')\n    return n\nq = g(2)\nmon.write('m2')\n",
 }
